@@ -34,7 +34,7 @@ REQUIRED = [
     "plane:offset-outside-tolerance", "plane:non-unit-normal", "plane:origin-is-vertex",
     "round:core-judged", "round:shell-judged", "round:start-face", "round:end-face",
     "round:shape:Cylinder", "round:shape:Frustum", "round:shape:Elbow", "round:shape:SemiCylinder",
-    "mesh:rotated", "mesh:exact-integer",
+    "mesh:rotated", "mesh:exact-integer", "mesh:merged-pair-with-duplicated-vertices",
 ]
 RULE = (
     "reorient: cube x anisotropic scale (10^U(-0.4,0.4) per axis) x size 10^U(-1,1), corner jitter class none / tiny "
@@ -65,7 +65,7 @@ ASSUMPTIONS = [
     "re-oriented points equal the originals to 1e-9*(1+max|coordinate|)",
     "round shapes: core = mesh vertices in the end plane with radial distance <= 0.97 R, rim = in the plane at R "
     "(1e-9 relative); a case with a vertex in an ambiguous band is not judged",
-    "no merged patches (duplicated vertices are C05's subject)",
+    "30 % of the box meshes carry one face-merged pair: both vertices at a duplicated position must be returned",
 ]
 
 TOL = orc.TOL
@@ -446,7 +446,8 @@ def gen_boxes(rng, mclass=None):
             if rng.random() < 0.3:
                 queries.append({"q": "sphere", "type": "exact-plus-1", "p": _fl(p), "r": float(r + 1)})
     rng.shuffle(queries)
-    return {"kind": "boxes", "mclass": mclass, "exact": mclass == "exact", "blocks": blocks, "queries": queries}
+    return {"kind": "boxes", "mclass": mclass, "exact": mclass == "exact", "blocks": blocks, "queries": queries,
+            "merge": rng.random() < 0.3}
 
 
 def run_boxes(ctx, case):
@@ -455,11 +456,29 @@ def run_boxes(ctx, case):
     from classy_blocks.mesh import Mesh
 
     mesh = Mesh()
-    for pts in case["blocks"]:
-        mesh.add(Loft(Face(pts[:4]), Face(pts[4:])))
+    lofts = [Loft(Face(pts[:4]), Face(pts[4:])) for pts in case["blocks"]]
+    if case.get("merge"):
+        # one face-merged pair: the slave side gets its own copies of the interface vertices, so two mesh vertices
+        # share a position and a finder must return both of them
+        done = False
+        for x in range(len(lofts)):
+            for y in range(x + 1, len(lofts)):
+                common = {tuple(p) for p in case["blocks"][x]} & {tuple(p) for p in case["blocks"][y]}
+                if len(common) == 4 and not done:
+                    sx = [n for n, c in hexconv.SIDES.items() if {tuple(case["blocks"][x][k]) for k in c} == common]
+                    sy = [n for n, c in hexconv.SIDES.items() if {tuple(case["blocks"][y][k]) for k in c} == common]
+                    if sx and sy:
+                        lofts[x].set_patch(sx[0], "mM")
+                        lofts[y].set_patch(sy[0], "mS")
+                        mesh.merge_patches("mM", "mS")
+                        done = True
+    for loft in lofts:
+        mesh.add(loft)
     mesh.assemble()
     distinct = {tuple(p) for pts in case["blocks"] for p in pts}
-    if len(mesh.vertices) != len(distinct):
+    if len(mesh.vertices) > len(distinct) and case.get("merge"):
+        ctx.count("mesh:merged-pair-with-duplicated-vertices")
+    elif len(mesh.vertices) != len(distinct):
         ctx.count("boxes:vertex-count-differs-from-distinct-points(C05)")
     ctx.count("mesh:boxes")
     ctx.count("mesh:exact-integer" if case["exact"] else "mesh:float")
